@@ -1,2 +1,262 @@
-(* Property C11 - statements only (proofs in Proofs/C11.v). Not built yet. *)
-From SC.Model Require Import Base.
+(* Property C11 - clock times and zones: conversion keeps the instant, arithmetic is modulo 24 h.
+   STATEMENTS ONLY (proofs: Proofs/C11.v).  Model functions: Format.time_print (TimeItem::print),
+   RuleFns.time_with_timezone / convert_timezone / to_duration, Items.calculate on a time and a
+   duration (Items.duration_as_time inside), Lexer.parse_timezone through the zone regex of
+   config.json (lex_zone), Corr.set_timezone / step (SmartCalc::set_timezone, get_time_offset),
+   Api.execute (run_line).  In the model a time is a UTC instant in seconds since the epoch plus the
+   display zone {tz_name; tz_off (minutes east)}.
+   Spec: Spec/Clock.v (wall_ok, wall_of, instant_of, clock_of, shown, shift_add, shift_sub,
+   clock_diff, clock_text). *)
+From Coq Require Import ZArith Floats.
+From SC.Model Require Import Base Num NumF64 Types Config Case Chrono Regex Rx Parser RuleFns Items Format Lexer Api Run64 Corr.
+From SC.Spec Require Import Clock.
+From SC.Gen Require Import RustConsts ConfigData Regexes.
+From SC.Proofs Require Import C11.
+
+(* ---- printing: for ALL instants and ALL display offsets the printed HH:MM:SS is the wall time
+   of the instant in the display zone, followed by the zone name *)
+Theorem C11_print_clock : forall t tz,
+  time_print t tz = clock_text (clock_of t (tz_off tz)) ++ 32%N :: tz_name tz.
+Proof. exact print_clock. Qed.
+
+(* hours < 24, minutes and seconds < 60, and they determine the wall time *)
+Theorem C11_print_components : forall t off,
+  let w := clock_of t off in
+  0 <= w / 3600 < 24 /\ 0 <= (w / 60) mod 60 < 60 /\ 0 <= w mod 60 < 60 /\
+  w = wall_of (w / 3600) ((w / 60) mod 60) (w mod 60).
+Proof. exact print_components. Qed.
+
+(* different wall times print differently (the printed text can be compared instead of the value) *)
+Theorem C11_clock_text_inj : forall w1 w2,
+  wall_ok w1 -> wall_ok w2 -> clock_text w1 = clock_text w2 -> w1 = w2.
+Proof. exact clock_text_inj. Qed.
+
+(* ---- the spec's conversion: identity on the same zone, composes, and round-trips *)
+Theorem C11_shown_laws : forall w a b c,
+  wall_ok (shown w a b) /\
+  (wall_ok w -> shown w a a = w) /\
+  shown (shown w a b) b c = shown w a c /\
+  (wall_ok w -> shown (shown w a b) b a = w).
+Proof.
+  intros w a b c. split; [apply shown_ok|]. split; [apply shown_same|].
+  split; [apply shown_compose | apply shown_roundtrip].
+Qed.
+
+Section WithNum.
+Context {F : Type} {NF : Num F}.
+
+(* ---- `T ZONE`: the wall time is re-anchored in ZONE (instant = wall - 60*offset), whatever the
+   default zone [cur] the literal was first read in; all days, all w, all offsets *)
+Theorem C11_with_timezone : forall (vs : vars F) fs day w cur n o,
+  get_time vs (s "time") fs = Some (instant_of day w (tz_off cur), cur) ->
+  get_timezone vs (s "timezone") fs = Some (n, o) ->
+  time_with_timezone vs fs = Ok (Some (TTime (instant_of day w o) (zone_of n o))).
+Proof. exact with_timezone_wall. Qed.
+
+(* ---- `X to ZONE`: the instant is kept, only the display zone is swapped *)
+Theorem C11_convert_keeps_instant : forall (vs : vars F) fs t z n o,
+  get_time vs (s "time") fs = Some (t, z) -> get_timezone vs (s "timezone") fs = Some (n, o) ->
+  convert_timezone vs fs = Ok (Some (TTime t (zone_of n o))).
+Proof. exact convert_keeps_instant. Qed.
+
+(* ---- `T ZONE_A to ZONE_B` prints shown w a b and the name of ZONE_B: for ALL wall times w, ALL
+   offsets a b (unbounded), all days, whatever the default zone *)
+Theorem C11_convert_shows : forall (vs : vars F) day w cur na a nb b fs1,
+  get_time vs (s "time") fs1 = Some (instant_of day w (tz_off cur), cur) ->
+  get_timezone vs (s "timezone") fs1 = Some (na, a) ->
+  let t1 := instant_of day w a in
+  time_with_timezone vs fs1 = Ok (Some (TTime t1 (zone_of na a))) /\
+  time_print t1 (zone_of na a) = clock_text (shown w a a) ++ 32%N :: to_uppercase na /\
+  forall fs2,
+    get_time vs (s "time") fs2 = Some (t1, zone_of na a) ->
+    get_timezone vs (s "timezone") fs2 = Some (nb, b) ->
+    convert_timezone vs fs2 = Ok (Some (TTime t1 (zone_of nb b))) /\
+    time_print t1 (zone_of nb b) = clock_text (shown w a b) ++ 32%N :: to_uppercase nb.
+Proof. exact convert_shows. Qed.
+
+(* ---- `T to ZONE_B` (no source zone): the source is the configured default zone *)
+Theorem C11_convert_default_shows : forall (vs : vars F) day w cur nb b fs,
+  get_time vs (s "time") fs = Some (instant_of day w (tz_off cur), cur) ->
+  get_timezone vs (s "timezone") fs = Some (nb, b) ->
+  convert_timezone vs fs = Ok (Some (TTime (instant_of day w (tz_off cur)) (zone_of nb b))) /\
+  time_print (instant_of day w (tz_off cur)) (zone_of nb b)
+    = clock_text (shown w (tz_off cur) b) ++ 32%N :: to_uppercase nb.
+Proof. exact convert_default_shows. Qed.
+
+(* a literal prints its own wall time and zone *)
+Theorem C11_literal_prints : forall day w z, wall_ok w ->
+  time_print (instant_of day w (tz_off z)) z = clock_text w ++ 32%N :: tz_name z.
+Proof. exact literal_prints. Qed.
+
+(* ---- T +/- duration: exactly what is computed ([dt_ok]: chrono's NaiveDateTime range) ... *)
+Theorem C11_calc_exact : forall (bexec : config F -> str -> res (option F)) cfg t tz d op,
+  calculate bexec cfg (ITime t tz : item F) (IDuration d) op =
+  let m := Z.abs d mod DAY_SECS in
+  let plus := if dt_ok (t + m) then Ok (Some (ITime (t + m) tz)) else Panic SITE_DT_ADD in
+  let minus := if dt_ok (t - m) then Ok (Some (ITime (t - m) tz)) else Panic SITE_DT_ADD in
+  if d <? 0 then minus
+  else match op with OAdd => plus | OSub => minus | _ => Ok None end.
+Proof. exact calc_time_duration. Qed.
+
+(* ... the clock moves by the duration modulo 24 h in every display zone, the zone is kept; all
+   instants, all durations d >= 0 *)
+Theorem C11_calc_add : forall (bexec : config F -> str -> res (option F)) cfg t tz d t' tz',
+  0 <= d ->
+  calculate bexec cfg (ITime t tz : item F) (IDuration d) OAdd = Ok (Some (ITime t' tz')) ->
+  tz' = tz /\ forall off, clock_of t' off = shift_add (clock_of t off) d.
+Proof. exact calc_add_clock. Qed.
+
+Theorem C11_calc_sub : forall (bexec : config F -> str -> res (option F)) cfg t tz d t' tz',
+  0 <= d ->
+  calculate bexec cfg (ITime t tz : item F) (IDuration d) OSub = Ok (Some (ITime t' tz')) ->
+  tz' = tz /\ forall off, clock_of t' off = shift_sub (clock_of t off) d.
+Proof. exact calc_sub_clock. Qed.
+
+(* a negative duration moves the clock back by its magnitude under + and under - alike *)
+Theorem C11_calc_negative : forall (bexec : config F -> str -> res (option F)) cfg t tz d op t' tz',
+  d < 0 ->
+  calculate bexec cfg (ITime t tz : item F) (IDuration d) op = Ok (Some (ITime t' tz')) ->
+  tz' = tz /\ forall off, clock_of t' off = shift_sub (clock_of t off) (- d).
+Proof. exact calc_negative_clock. Qed.
+
+(* it succeeds (no panic, no refusal) for every instant within +-250,000 years, every duration *)
+Theorem C11_calc_total : forall (bexec : config F -> str -> res (option F)) cfg t tz d op,
+  - 8 * 10 ^ 12 <= t <= 8 * 10 ^ 12 -> op = OAdd \/ op = OSub ->
+  exists t', calculate bexec cfg (ITime t tz : item F) (IDuration d) op = Ok (Some (ITime t' tz)).
+Proof. exact calc_time_duration_total. Qed.
+
+(* the printed result for a literal of wall time w in zone z *)
+Theorem C11_calc_prints : forall (bexec : config F -> str -> res (option F)) cfg day w z d t' tz',
+  0 <= d ->
+  (calculate bexec cfg (ITime (instant_of day w (tz_off z)) z : item F) (IDuration d) OAdd = Ok (Some (ITime t' tz')) ->
+   time_print t' tz' = clock_text (shift_add w d) ++ 32%N :: tz_name z) /\
+  (calculate bexec cfg (ITime (instant_of day w (tz_off z)) z : item F) (IDuration d) OSub = Ok (Some (ITime t' tz')) ->
+   time_print t' tz' = clock_text (shift_sub w d) ++ 32%N :: tz_name z).
+Proof.
+  intros bexec cfg day w z d t' tz' Hd. split; [apply calc_add_prints | apply calc_sub_prints]; exact Hd.
+Qed.
+
+(* ---- `T1 to T2` is the absolute difference of the two instants; for two literals of one day
+   under one default zone, of the two wall times *)
+Theorem C11_to_duration : forall (vs : vars F) fs t1 z1 t2 z2,
+  get_time vs (s "source") fs = Some (t1, z1) -> get_time vs (s "target") fs = Some (t2, z2) ->
+  to_duration vs fs = Ok (Some (TDuration (clock_diff t1 t2))).
+Proof. exact to_duration_abs. Qed.
+
+Theorem C11_to_duration_walls : forall (vs : vars F) fs day w1 w2 z,
+  get_time vs (s "source") fs = Some (instant_of day w1 (tz_off z), z) ->
+  get_time vs (s "target") fs = Some (instant_of day w2 (tz_off z), z) ->
+  to_duration vs fs = Ok (Some (TDuration (clock_diff w1 w2))).
+Proof. exact to_duration_walls. Qed.
+
+End WithNum.
+
+(* ---- finite table (regenerated from config.json on every run): every zone name of the table
+   that [A-Z]{2,4} can express and that is not a currency code (174 of 191), through the whole
+   pipeline: `10:30 Z` is 10:30 in Z with the table's offset; Z as source and as target of a
+   conversion; Z as the default zone *)
+Theorem C11_zone_table : forall n o, In (n, o) table_zones ->
+  run_line default_config (s "10:30 " ++ n)
+    = Some (clock_text W1030 ++ 32%N :: n, Some (TTime (instant_of 20000 W1030 o) {| tz_name := n; tz_off := o |})) /\
+  run_line default_config (s "10:30 " ++ n ++ s " to GMT+3")
+    = Some (clock_text (shown W1030 o 180) ++ s " GMT+3",
+            Some (TTime (instant_of 20000 W1030 o) {| tz_name := s "GMT+3"; tz_off := 180 |})) /\
+  run_line default_config (s "10:30 EST to " ++ n)
+    = Some (clock_text (shown W1030 (-300) o) ++ 32%N :: n,
+            Some (TTime (instant_of 20000 W1030 (-300)) {| tz_name := n; tz_off := o |})) /\
+  set_timezone default_config n = Some (n, o).
+Proof. exact zone_table. Qed.
+
+Theorem C11_zone_table_size : length d_timezones = 191%nat /\ length table_zones = 174%nat.
+Proof. exact zone_table_size. Qed.
+
+(* ---- every GMT form: sign +, - or none, hour 0..19 in one or two digits, optional :mm with
+   mm in 0..59 (5,490 forms): the zone regex + parse_timezone yield the text itself as the name
+   and +-(60h + m) as the offset; set_timezone accepts it with the same result *)
+Theorem C11_gmt_forms : forall sign h hh mm,
+  In sign [s "+"; s "-"; []] -> 0 <= h < 20 -> In hh (hour_spellings h) ->
+  match mm with Some m => 0 <= m < 60 | None => True end ->
+  lex_zone default_config (gmt_text sign hh mm) = [(gmt_text sign hh mm, gmt_offset sign h mm)] /\
+  set_timezone default_config (gmt_text sign hh mm) = Some (gmt_text sign hh mm, gmt_offset sign h mm).
+Proof. exact gmt_forms. Qed.
+
+Theorem C11_gmt_offset_signs : forall h m,
+  gmt_offset (s "+") h (Some m) = 60 * h + m /\
+  gmt_offset [] h (Some m) = 60 * h + m /\ gmt_offset (s "-") h (Some m) = - (60 * h + m) /\
+  gmt_offset (s "+") h None = 60 * h /\ gmt_offset (s "-") h None = - (60 * h).
+Proof. exact gmt_offset_signs. Qed.
+
+(* ---- the default zone (operation machine of the correspondence layer = the public API) *)
+Theorem C11_set_tz_ok : forall ck m v n o, set_timezone (m_cfg m) v = Some (n, o) ->
+  let m' := fst (step ck m (OSetTz v)) in
+  snd (step ck m (OSetTz v)) = MTz true n o /\
+  get_time_offset (m_cfg m') = {| tz_name := n; tz_off := o |} /\
+  step ck m' OGetTz = (m', MTz true n o) /\
+  m_sessions m' = m_sessions m.
+Proof. exact set_tz_ok. Qed.
+
+Theorem C11_set_tz_fail : forall ck m v,
+  set_timezone (m_cfg m) v = None -> step ck m (OSetTz v) = (m, MTz false [] 0).
+Proof. exact set_tz_fail. Qed.
+
+Theorem C11_exec_keeps_state : forall ck m lang text, fst (step ck m (OExec lang text)) = m.
+Proof. exact exec_keeps_state. Qed.
+
+Theorem C11_only_set_tz_changes_zone : forall ck m o,
+  (forall v, o <> OSetTz v) -> get_time_offset (m_cfg (fst (step ck m o))) = get_time_offset (m_cfg m).
+Proof. exact only_set_tz_changes_zone. Qed.
+
+(* all histories: the default zone is the last one set successfully *)
+Theorem C11_default_zone_history : forall ck ops m,
+  get_time_offset (m_cfg (final_state ck m ops)) = last_zone (m_cfg m) (get_time_offset (m_cfg m)) ops.
+Proof. exact default_zone_history. Qed.
+
+(* ---- non-vacuity: whole-pipeline runs *)
+Theorem C11_examples :
+  run_line default_config (s "10:30 EST to GMT+3")
+    = Some (s "18:30:00 GMT+3", Some (TTime (20000 * 86400 + 15 * 3600 + 30 * 60) {| tz_name := s "GMT+3"; tz_off := 180 |})) /\
+  run_line default_config (s "1:15 JST to PST")
+    = Some (s "08:15:00 PST", Some (TTime (20000 * 86400 + 3600 + 900 - 9 * 3600) {| tz_name := s "PST"; tz_off := -480 |})) /\
+  run_line default_config (s "3 pm") = Some (s "15:00:00 UTC", Some (TTime (20000 * 86400 + 15 * 3600) {| tz_name := s "UTC"; tz_off := 0 |})) /\
+  run_line default_config (s "11:05 AM CET") = Some (s "11:05:00 CET", Some (TTime (20000 * 86400 + 10 * 3600 + 300) {| tz_name := s "CET"; tz_off := 60 |})) /\
+  option_map fst (run_line default_config (s "23:30 + 45 minutes")) = Some (s "00:15:00 UTC") /\
+  option_map fst (run_line default_config (s "0:15 - 30 minutes")) = Some (s "23:45:00 UTC") /\
+  option_map fst (run_line default_config (s "12:00 - 36 hours")) = Some (s "00:00:00 UTC") /\
+  run_line default_config (s "10:30 to 13:00") = Some (s "2 hours 30 minutes", Some (TDuration 9000)) /\
+  run_line default_config (s "13:00 to 10:30") = Some (s "2 hours 30 minutes", Some (TDuration 9000)) /\
+  option_map fst (run_line (cfg_with_zone (s "GMT+5:30")) (s "9:00 pm to UTC")) = Some (s "15:30:00 UTC") /\
+  option_map fst (run_line (cfg_with_zone (s "GMT+5:30")) (s "10:30 EST to GMT+3")) = Some (s "18:30:00 GMT+3") /\
+  run_line (cfg_with_zone (s "GMT+5:30")) (s "21:00")
+    = Some (s "21:00:00 GMT+5:30", Some (TTime (20000 * 86400 + 21 * 3600 - 330 * 60) {| tz_name := s "GMT+5:30"; tz_off := 330 |})) /\
+  set_timezone default_config (s "EST") = Some (s "EST", -300) /\
+  set_timezone default_config (s "Mars") = None /\
+  shown (wall_of 10 30 0) (-300) 180 = wall_of 18 30 0.
+Proof. exact examples. Qed.
+
+Print Assumptions C11_print_clock.
+Print Assumptions C11_print_components.
+Print Assumptions C11_clock_text_inj.
+Print Assumptions C11_shown_laws.
+Print Assumptions C11_with_timezone.
+Print Assumptions C11_convert_keeps_instant.
+Print Assumptions C11_convert_shows.
+Print Assumptions C11_convert_default_shows.
+Print Assumptions C11_literal_prints.
+Print Assumptions C11_calc_exact.
+Print Assumptions C11_calc_add.
+Print Assumptions C11_calc_sub.
+Print Assumptions C11_calc_negative.
+Print Assumptions C11_calc_total.
+Print Assumptions C11_calc_prints.
+Print Assumptions C11_to_duration.
+Print Assumptions C11_to_duration_walls.
+Print Assumptions C11_zone_table.
+Print Assumptions C11_zone_table_size.
+Print Assumptions C11_gmt_forms.
+Print Assumptions C11_gmt_offset_signs.
+Print Assumptions C11_set_tz_ok.
+Print Assumptions C11_set_tz_fail.
+Print Assumptions C11_exec_keeps_state.
+Print Assumptions C11_only_set_tz_changes_zone.
+Print Assumptions C11_default_zone_history.
+Print Assumptions C11_examples.
